@@ -38,7 +38,15 @@ class _VirtualSelector(selectors.DefaultSelector):
             return super().select(0.001)
         if timeout > 0:
             loop._vtime += timeout
+            if loop._vtime > loop.max_vtime:
+                # only timers fire (progress logger, retry sleeps) and nothing else ever becomes ready
+                raise VirtualTimeExceeded(f"virtual loop: no completion after {int(loop._vtime - 1000)} virtual seconds "
+                                          "(deadlock or endless waiting)")
         return ready
+
+
+class VirtualTimeExceeded(RuntimeError):
+    pass
 
 
 class VirtualLoop(asyncio.SelectorEventLoop):
@@ -47,6 +55,7 @@ class VirtualLoop(asyncio.SelectorEventLoop):
     def __init__(self):
         import weakref
         self._vtime = 1000.0
+        self.max_vtime = 1000.0 + 5e6
         self._pending_external = 0
         self._stalls = 0
         super().__init__(_VirtualSelector(weakref.ref(self)))
@@ -65,8 +74,11 @@ class VirtualLoop(asyncio.SelectorEventLoop):
 
 
 def run_virtual(coro, timeout_vs: float | None = None):
-    """Run a coroutine to completion on a fresh VirtualLoop."""
+    """Run a coroutine to completion on a fresh VirtualLoop.  timeout_vs: virtual seconds after which the
+    run is declared stuck (VirtualTimeExceeded)."""
     loop = VirtualLoop()
+    if timeout_vs is not None:
+        loop.max_vtime = loop._vtime + timeout_vs
     try:
         asyncio.set_event_loop(loop)
         return loop.run_until_complete(coro)
